@@ -182,6 +182,139 @@ def Op.isBad : Op → Bool
   | .free .foreign => true
   | _ => false
 
+/-! ### the intrusive representation: what `Pool` really stores
+
+The free list of the C++ pool is not a container: `head_` points to a free slot and the first word of every free slot
+(`Reference::next_`) points to the next one.  Live blocks belong to their owner, who may write anything into them —
+including over the word that was `next_` while the slot was free.  `IPool` transcribes this: `mem` holds the `next_`
+word of every slot that has ever been written, by the pool (`grow`, `free`) or by the owner of a live block (`iwrite`).
+`Proofs/C15Intr.lean` shows that for every valid history, with arbitrary writes to live blocks interleaved, the
+intrusive pool never reads a word it has not written and returns exactly the blocks of the list model above. -/
+
+/-- association list, newest binding first; `lookup b = none`: the word of slot `b` was never written (indeterminate) -/
+abbrev Mem := List (Block × Option Block)
+
+structure IPool where
+  /-- `head_` -/
+  head : Option Block
+  /-- the `next_` words -/
+  mem : Mem
+  /-- `chunks_`, newest first -/
+  chunks : List Nat
+  /-- ghost: blocks handed out and not yet freed -/
+  live : List Block
+  deriving Repr, DecidableEq
+
+def IPool.empty : IPool := ⟨none, [], [], []⟩
+
+inductive IErr where
+  | alloc          -- std::bad_alloc
+  | ub             -- the pool used a word it never wrote: undefined behaviour
+  deriving DecidableEq, Repr
+
+/-- the loop of `grow()`: `for (element = start+alignedSize; element < last; element += alignedSize)
+    { next = new (element) Reference; ref->next_ = next; ref = next; }` over the slot indices `is` of chunk `c` -/
+def threadSlots (c : Nat) : List Nat → Block → Mem → Block × Mem
+  | [], ref, m => (ref, m)
+  | i :: is, ref, m => threadSlots c is (c, i) ((ref, some (c, i)) :: m)
+
+/-- `grow()`: `chunks_ = newChunk; ref = slot 0; head_ = ref; <loop>; ref->next_ = 0;` -/
+def igrow (E : Nat) (p : IPool) : IPool :=
+  let c := p.chunks.length
+  let r := threadSlots c (List.range' 1 (E - 1)) (c, 0) p.mem
+  { p with head := some (c, 0), mem := (r.1, none) :: r.2, chunks := c :: p.chunks }
+
+/-- `allocate()`: `if (!head_) grow(); p = head_; head_ = p->next_; return p;` (`newOk = false`: `new Chunk` throws) -/
+def iallocate (E : Nat) (newOk : Bool) (p : IPool) : Except IErr (Block × IPool) :=
+  let grown : Option IPool :=
+    match p.head with
+    | none => if newOk then some (igrow E p) else none
+    | some _ => some p
+  match grown with
+  | none => .error .alloc
+  | some p1 =>
+    match p1.head with
+    | none => .error .ub
+    | some b =>
+      match p1.mem.lookup b with
+      | none => .error .ub
+      | some nx => .ok (b, { p1 with head := nx, live := p1.live ++ [b] })
+
+/-- `free(b)`: the range test, then `freed->next_ = head_; head_ = freed;` -/
+def ifree (g : Geo) (p : IPool) : Ptr → Except IErr IPool
+  | .null => .error .alloc
+  | .foreign => .error .alloc
+  | .blk b =>
+    if p.chunks.contains b.1 && b.2 * g.alignedSize < g.chunkSize then
+      .ok { p with mem := (b, p.head) :: p.mem, head := some b, live := p.live.erase b }
+    else .error .alloc
+
+/-- the owner of a live block overwrites it: the word that served as `next_` becomes an arbitrary value -/
+def iwrite (p : IPool) (b : Block) (v : Option Block) : IPool := { p with mem := (b, v) :: p.mem }
+
+/-- histories of the intrusive pool: the operations of `Op` and writes of owners into their blocks -/
+inductive IOp where
+  | op (o : Op)
+  | write (b : Block) (v : Option Block)
+  deriving DecidableEq, Repr
+
+/-- `none` = undefined behaviour; writes produce no event -/
+def istep (g : Geo) (p : IPool) : IOp → Option (IPool × Option Ev)
+  | .write b v => some (iwrite p b v, none)
+  | .op .alloc =>
+    match iallocate g.elements true p with
+    | .ok r => some (r.2, some (.ret r.1))
+    | .error .alloc => some (p, some .refused)
+    | .error .ub => none
+  | .op (.allocN n) =>
+    if paAccepts n then
+      match iallocate g.elements true p with
+      | .ok r => some (r.2, some (.ret r.1))
+      | .error .alloc => some (p, some .refused)
+      | .error .ub => none
+    else some (p, some .refused)
+  | .op .allocOom =>
+    match iallocate g.elements false p with
+    | .ok r => some (r.2, some (.ret r.1))
+    | .error .alloc => some (p, some .refused)
+    | .error .ub => none
+  | .op (.free q) =>
+    match ifree g p q with
+    | .ok p' => some (p', some (.freed q))
+    | .error _ => some (p, some .refused)
+
+def irun (g : Geo) : IPool → List IOp → Option (IPool × List Ev)
+  | p, [] => some (p, [])
+  | p, o :: os =>
+    match istep g p o with
+    | none => none
+    | some (p1, e) =>
+      match irun g p1 os with
+      | none => none
+      | some (p2, es) => some (p2, (match e with | some e => [e] | none => []) ++ es)
+
+/-- the list-level history behind an intrusive one -/
+def eraseWrites : List IOp → List Op
+  | [] => []
+  | .op o :: os => o :: eraseWrites os
+  | .write _ _ :: os => eraseWrites os
+
+/-- valid intrusive history (followed on the list model): as `Valid`, and only live blocks are written -/
+def IValid (g : Geo) : Pool → List IOp → Prop
+  | _, [] => True
+  | p, .write b _ :: os => b ∈ p.live ∧ IValid g p os
+  | p, .op o :: os => okOp p o ∧ IValid g (step g p o).1 os
+
+/-- `PoolAllocator::allocate(n)` / `deallocate(q, n)` on the intrusive pool -/
+def ipaAllocate (E n : Nat) (p : IPool) : Except IErr (Block × IPool) :=
+  if paAccepts n then iallocate E true p else .error .alloc
+
+def ipaDeallocate (g : Geo) (p : IPool) (q : Ptr) (n : Nat) : Option (Except IErr IPool) :=
+  match paDeallocFrees n with
+  | 0 => some (.ok p)
+  | 1 => some (ifree g p q)
+  | _ => none
+
 /-! ## MallocAllocator<T>, AlignedAllocator<T,A> -/
 
 /-- `allocate(n)`: the `n > max_size()` test (if the source has it), then `malloc(n*sizeof(T))` — or, for an over-aligned
@@ -372,6 +505,58 @@ def poolOps (g : Geo) (isPA : Bool) : Pool → List String → Option (Pool × L
       | none => none
       | some (p'', ss) => some (p'', s :: ss)
 
+/-- what the harness writes into a block it owns: tag bytes after `allocate`, 0xDD before `free` -/
+def junkAfterAlloc : Option Block := some (2863311530, 2863311530)
+def junkBeforeFree : Option Block := some (3722304989, 3722304989)
+
+def showAlloc (p : IPool) : Except IErr (Block × IPool) → IPool × String
+  | .ok r => (iwrite r.2 r.1 junkAfterAlloc, showBlock r.1)
+  | .error .alloc => (p, "ERR:Alloc")
+  | .error .ub => (p, "UB")
+
+def showFree (p : IPool) : Except IErr IPool → IPool × String
+  | .ok p' => (p', "ok")
+  | .error .alloc => (p, "ERR:Alloc")
+  | .error .ub => (p, "UB")
+
+/-- the same ops on the intrusive pool (this is what the driver prints; `poolOp` on the list model is run alongside) -/
+def ipoolOp (g : Geo) (isPA : Bool) (p : IPool) (op : String) : Option (IPool × String) :=
+  match op.toList with
+  | ['a'] => some (showAlloc p (iallocate g.elements true p))
+  | ['a', 'o'] => some (showAlloc p (iallocate g.elements false p))
+  | ['f', 'n'] => some (showFree p (ifree g p .null))
+  | ['f', 'x'] => some (showFree p (ifree g p .foreign))
+  | ['f', 'e'] => some (showFree p (ifree g p .foreign))
+  | ['f', 'b'] => some (showFree p (ifree g p .foreign))
+  | 'f' :: ds => match (String.ofList ds).toNat? with
+    | none => none
+    | some k => match p.live[k]? with
+      | none => some (p, "-")
+      | some b =>
+        let p0 := iwrite p b junkBeforeFree
+        match (if isPA then ipaDeallocate g p0 (.blk b) 1 else some (ifree g p0 (.blk b))) with
+        | some r => some (showFree p0 r)
+        | none => none
+  | 'd' :: ds => if !isPA then none else match (String.ofList ds).toNat? with
+    | none => none
+    | some k => match p.live[k]? with
+      | none => some (p, "-")
+      | some b => match ipaDeallocate g p (.blk b) 0 with
+        | some r => some (showFree p r)
+        | none => none
+  | 'n' :: ds => if !isPA then none else match (String.ofList ds).toNat? with
+    | none => none
+    | some n => some (showAlloc p (ipaAllocate g.elements n p))
+  | _ => none
+
+def ipoolOps (g : Geo) (isPA : Bool) : IPool → List String → Option (IPool × List String)
+  | p, [] => some (p, [])
+  | p, o :: os => match ipoolOp g isPA p o with
+    | none => none
+    | some (p', s) => match ipoolOps g isPA p' os with
+      | none => none
+      | some (p'', ss) => some (p'', s :: ss)
+
 def splitOps (s : String) : List String :=
   let t := s.trimAscii.toString
   if t.isEmpty then [] else (t.splitOn ";").map fun x => x.trimAscii.toString
@@ -379,14 +564,16 @@ def splitOps (s : String) : List String :=
 def poolLine (sz al s : Nat) (isPA : Bool) (ops : String) : String :=
   let S := if isPA then paPoolSize sz s else s
   let g := geoOf sz al S
-  match poolOps g isPA Pool.empty (splitOps ops) with
-  | none => "bad-op"
-  | some (p, outs) =>
-    let d := destroy p
+  match ipoolOps g isPA IPool.empty (splitOps ops), poolOps g isPA Pool.empty (splitOps ops) with
+  | some (ip, outs), some (p, outs') =>
+    -- the intrusive pool (printed) and the list model the theorems are about must agree (`intrusive_pool_refines`)
+    if outs ≠ outs' ∨ ip.chunks ≠ p.chunks ∨ ip.live ≠ p.live then "model-divergence" else
+    let d := ip.chunks
     (if isPA then "max=" ++ toString paMaxSize ++ " " else "") ++
     "geo=" ++ showList [unionSize sz al S, size sz al S, alignment sz al S, alignedSize sz al S, chunkSize sz al S,
-      elements sz al S] ++ " : " ++ ";".intercalate outs ++ " : chunks=" ++ toString p.chunks.length ++
+      elements sz al S] ++ " : " ++ ";".intercalate outs ++ " : chunks=" ++ toString ip.chunks.length ++
       " released=" ++ toString d.length
+  | _, _ => "bad-op"
 
 /-- malloc/aligned histories: state = list of live block sizes; `a<n>` / `f<k>` -/
 def rawOps (alloc : Nat → Bool) : List Nat → List String → Option (List String)
